@@ -47,6 +47,8 @@ class Stub:
     def __getattr__(self, name):
         ext = object.__getattribute__(self, "_ext")
         m = ext.methods.get(name)
+        if m is None and getattr(ext, "dynamic", None) is not None and not name.startswith("__"):
+            m = ext.dynamic(name)
         if m is None:
             raise AttributeError(f"stub {ext.__name__} has no method {name}")
         rec = object.__getattribute__(self, "_rec")
@@ -65,6 +67,7 @@ class Stub:
 
         if getattr(m, "is_async", False):
             async def acall(*args, **kwargs):
+                rec.add(("call", f"{ext.__name__}.{name}", tuple(args), dict(kwargs)))
                 scripted = await _park(f"{ext.__name__}.{name}")
                 r = call(*args, **kwargs)
                 return r if scripted is _NOVALUE else scripted
@@ -156,6 +159,8 @@ class Builder:
                 return bytearray(b) if j.get("mutable") else b
             if "__real__" in j:
                 return j["__real__"][0] / j["__real__"][1]
+            if "__set__" in j:
+                return set(j["__set__"])
             if "__tuple__" in j:
                 return tuple(self.build(x) for x in j["__tuple__"])
             if "__dict__" in j:
